@@ -7,6 +7,7 @@ package main
 import (
 	"fmt"
 	"strings"
+	"time"
 
 	"github.com/songzhibin97/go-baseutils/base/bcomparator"
 	"github.com/songzhibin97/go-baseutils/structure/queues/arrayqueue"
@@ -62,6 +63,8 @@ type box struct {
 	shape  func() string // Coq term of an SRaw / SRing step, or ""
 	// scribble: a caller overwrites every cell of a fresh Values() result (nil: do it on values())
 	scribble func()
+	// cmpSizes: the container's comparator reads Size() at every invocation; this returns (and forgets) what it saw
+	cmpSizes func() []int
 	// method names for the labels
 	nEnq, nDeq string
 }
@@ -205,6 +208,24 @@ type kind struct {
 	cap       int
 }
 
+// a heap / priority queue whose user comparator (a - b) looks at the container every time it is called
+func watchingHeap() *box {
+	var h *binaryheap.Heap[int]
+	var seen []int
+	h = binaryheap.NewWith[int](func(a, b int) int { seen = append(seen, h.Size()); return a - b })
+	b := fromHeap(h)
+	b.cmpSizes = func() []int { r := seen; seen = nil; return r }
+	return b
+}
+func watchingPQ() *box {
+	var q *priorityqueue.Queue[int]
+	var seen []int
+	q = priorityqueue.NewWith[int](func(a, b int) int { seen = append(seen, q.Size()); return a - b })
+	b := fromQueue(q)
+	b.cmpSizes = func() []int { r := seen; seen = nil; return r }
+	return b
+}
+
 func allKinds() []kind {
 	cmp := bcomparator.IntComparator()
 	rev := bcomparator.ReverseComparator(bcomparator.IntComparator())
@@ -224,7 +245,7 @@ func allKinds() []kind {
 		// comparator shapes: -1/0/+1, its reverse, and user-style comparators whose magnitudes vary
 		{name: "priorityqueue", coq: "(KPQ CInt)", ordered: true, mk: func() *box { return fromQueue(priorityqueue.NewWith[int](cmp)) }},
 		{name: "priorityqueue(reverse)", coq: "(KPQ CRev)", ordered: true, noExh: true, mk: func() *box { return fromQueue(priorityqueue.NewWith[int](rev)) }},
-		{name: "priorityqueue(a-b)", coq: "(KPQ CSub)", ordered: true, mk: func() *box { return fromQueue(priorityqueue.NewWith[int](sub)) }},
+		{name: "priorityqueue(a-b)", coq: "(KPQ CSub)", ordered: true, mk: watchingPQ},
 		{name: "priorityqueue(b-a)", coq: "(KPQ CSubRev)", ordered: true, noExh: true, mk: func() *box { return fromQueue(priorityqueue.NewWith[int](subRev)) }},
 		{name: "priorityqueue((a-b)*7)", coq: "(KPQ CScaled)", ordered: true, noExh: true, mk: func() *box { return fromQueue(priorityqueue.NewWith[int](scaled)) }},
 		{name: "priorityqueue(a.prio-b.prio)", coq: "(KPQ CPrio)", ordered: true, mk: func() *box { return fromItemQueue(priorityqueue.NewWith[item](byPrio)) }},
@@ -232,7 +253,7 @@ func allKinds() []kind {
 		{name: "priorityqueue.Safe(a-b)", coq: "(KPQ CSub)", ordered: true, safe: true, mk: func() *box { return fromQueue(priorityqueue.NewSafeWith[int](sub)) }},
 		{name: "binaryheap", coq: "(KBH CInt)", heap: true, ordered: true, mk: func() *box { return fromHeap(binaryheap.NewWith[int](cmp)) }},
 		{name: "binaryheap(reverse)", coq: "(KBH CRev)", heap: true, ordered: true, noExh: true, mk: func() *box { return fromHeap(binaryheap.NewWith[int](rev)) }},
-		{name: "binaryheap(a-b)", coq: "(KBH CSub)", heap: true, ordered: true, noExh: true, mk: func() *box { return fromHeap(binaryheap.NewWith[int](sub)) }},
+		{name: "binaryheap(a-b)", coq: "(KBH CSub)", heap: true, ordered: true, noExh: true, mk: watchingHeap},
 		{name: "binaryheap(b-a)", coq: "(KBH CSubRev)", heap: true, ordered: true, mk: func() *box { return fromHeap(binaryheap.NewWith[int](subRev)) }},
 		{name: "binaryheap((a-b)*7)", coq: "(KBH CScaled)", heap: true, ordered: true, mk: func() *box { return fromHeap(binaryheap.NewWith[int](scaled)) }},
 		{name: "binaryheap(a.prio-b.prio)", coq: "(KBH CPrio)", heap: true, ordered: true, noExh: true, mk: func() *box { return fromItemHeap(binaryheap.NewWith[item](byPrio)) }},
@@ -274,9 +295,68 @@ type caseBuilder struct {
 	dead   bool
 	peak   int
 	kept   [][]int // every slice Values() returned (the very slice)
+	hung   bool    // a call did not return: reported as a direct violation, the case itself is not written
 }
 
-func newCase(k kind) *caseBuilder { return &caseBuilder{k: k, b: k.mk()} }
+// ---------- watchdog: every call into the code under test runs under a time limit ----------
+const hangLimit = 10 * time.Second
+
+var (
+	theWriter *vhlib.Writer
+	hungKinds = map[string]int{} // calls that did not return, per structure: after two, its remaining cases are skipped
+)
+
+// guarded runs f (a call into the code under test) recovering a panic, under the watchdog. A call that does not
+// return ends the case and becomes a direct violation "call does not return" with the calls so far as the replay;
+// the stuck goroutine is abandoned.
+func (c *caseBuilder) guarded(what string, f func()) (panicked bool) {
+	var p bool
+	if vhlib.WithTimeout(hangLimit, func() { p, _ = vhlib.Recover(f) }) {
+		return p
+	}
+	c.dead, c.hung = true, true
+	hungKinds[c.k.name]++
+	theWriter.Violation(c.k.name+" hang", what+": call does not return",
+		map[string]interface{}{"structure": c.k.name, "calls": append(append([]string{}, c.hist...), what+"  <- does not return within "+hangLimit.String())})
+	return false
+}
+
+// size of the container, for the generators (0 once the case is over)
+func (c *caseBuilder) size() int {
+	n := 0
+	if !c.dead {
+		c.guarded("Size", func() { n = c.b.size() })
+	}
+	return n
+}
+
+// sizes the watching comparator saw since the last time: one step, the distinct values
+func (c *caseBuilder) cmpSizes(after string) {
+	if c.dead || c.b.cmpSizes == nil {
+		return
+	}
+	seen := map[int]bool{}
+	var ds []int
+	for _, v := range c.b.cmpSizes() {
+		if !seen[v] {
+			seen[v] = true
+			ds = append(ds, v)
+		}
+	}
+	c.steps = append(c.steps, "SCmpSizes "+vhlib.IntList(ds))
+	c.labels = append(c.labels, after+"/size seen by the comparator")
+}
+
+func newCase(k kind) *caseBuilder {
+	c := &caseBuilder{k: k, b: k.mk()}
+	if hungKinds[k.name] >= 2 {
+		c.dead, c.hung = true, true
+	}
+	if k.safe { // Safe wrappers: every trace starts with a removal from the empty container (it must return)
+		c.do(op{K: "Deq"})
+	}
+	return c
+}
 
 func tf(b bool) string {
 	if b {
@@ -292,7 +372,7 @@ func (c *caseBuilder) call(o op, label string) {
 		return
 	}
 	var coq, step string
-	p, _ := vhlib.Recover(func() {
+	p := c.guarded(o.String(), func() {
 		switch o.K {
 		case "Enq":
 			coq = "(QEnq " + vhlib.Z(int64(o.V)) + ")"
@@ -330,6 +410,9 @@ func (c *caseBuilder) call(o op, label string) {
 			step = "fu_ " + tf(c.b.full())
 		}
 	})
+	if c.hung {
+		return
+	}
 	if p {
 		step = "SOp " + coq + " RPanic"
 		c.dead = true
@@ -363,6 +446,7 @@ func (c *caseBuilder) do(o op) {
 	nm := c.name(o)
 	c.hist = append(c.hist, o.String())
 	c.call(o, nm)
+	c.cmpSizes(nm)
 	c.observe(nm)
 }
 
@@ -379,13 +463,14 @@ func (c *caseBuilder) observe(after string) {
 	}
 	if c.b.shape != nil {
 		var t string
-		p, _ := vhlib.Recover(func() { t = c.b.shape() })
-		if !p {
+		p := c.guarded("verif accessor", func() { t = c.b.shape() })
+		if !p && !c.hung {
 			c.steps = append(c.steps, t)
 			c.labels = append(c.labels, after+"/shape")
 		}
 	}
-	if n := c.b.size(); n > c.peak {
+	c.cmpSizes(after)
+	if n := c.size(); n > c.peak {
 		c.peak = n
 	}
 }
@@ -397,7 +482,7 @@ func (c *caseBuilder) scribble() {
 		return
 	}
 	c.hist = append(c.hist, "Scribble(Values())")
-	p, _ := vhlib.Recover(func() {
+	p := c.guarded("Scribble(Values())", func() {
 		if c.b.scribble != nil {
 			c.b.scribble()
 			return
@@ -407,12 +492,15 @@ func (c *caseBuilder) scribble() {
 			s[i] = sentinel
 		}
 	})
-	if !p {
+	if !p && !c.hung {
 		c.observe("Scribble")
 	}
 }
 
 func (c *caseBuilder) emit(w *vhlib.Writer, profile string) {
+	if c.hung { // reported by the watchdog as a direct violation
+		return
+	}
 	if !c.dead { // aliasing judgement: the slices Values() returned, read again now
 		it := make([]string, len(c.kept))
 		for i, s := range c.kept {
@@ -431,6 +519,7 @@ func main() {
 	rng := vhlib.NewRng(o.Seed)
 	w := vhlib.NewWriter(o.Out, "From VF Require Import C07.Model C08.Model C08.Check.\nLocal Open Scope Z_scope.", "case", "mismatches", 150)
 	thorough := o.Thorough()
+	theWriter = w
 	kinds := append(allKinds(), ifaceKinds()...)
 
 	// ---- 1. bounded exhaustive: every word of length L over the alphabet ----
@@ -625,7 +714,7 @@ func walk(c *caseBuilder, r *vhlib.Rng, prof string) {
 	}
 	phaseUp := true
 	for s := 0; s < steps && !c.dead; s++ {
-		n := c.b.size()
+		n := c.size()
 		if r.Chance(1, 12) {
 			c.scribble()
 		}
